@@ -209,16 +209,19 @@ def attach_arrays(hooks, interp):
             hooks.cell_array[id(cell)] = name
 
 
-def needed_clauses(need_in, need_out):
+def needed_clauses(need_in, need_out, touched=()):
     """The oracle's clause assignment from the union of the needs."""
     out = {"copyin": [], "copyout": [], "copy": []}
-    for name in sorted(need_in | need_out):
+    for name in sorted(need_in | need_out | set(touched)):
         if name in need_in and name in need_out:
             out["copy"].append(name)
-        elif name in need_in:
-            out["copyin"].append(name)
-        else:
+        elif name in need_out:
             out["copyout"].append(name)
+        else:
+            # needs its values, or is only touched on the device where it
+            # held nothing defined (it must still be PRESENT for
+            # default(present) constructs; copyin copies nothing back)
+            out["copyin"].append(name)
     return out
 
 
